@@ -471,7 +471,7 @@ def native(default, avail, reqs):
     p = subprocess.run(["cargo", "run", "--quiet"], cwd=replay.CRATE, env=env, capture_output=True, text=True, timeout=1800)
     if p.returncode != 0:
         raise replay.ReplayError(p.stderr[-2000:])
-    for l in p.stdout.splitlines():
+    for l in p.stdout.split("\n"):
         if "\t" in l:
             return bytes.fromhex(l.split("\t")[1]).decode()
     return None
